@@ -62,6 +62,9 @@ def run(chk) -> None:
     _r31a(chk, repo, sk)
     _r31b(chk, repo, sk)
     _r31c(chk, repo)
+    deferred = chk.extra.pop("_r31a_deferred", [])
+    if deferred and not any(f.rule == "R31c" for f in chk.findings):
+        raise AnalysisError(deferred[0])
     chk.note(
         "Not decided: the integer arithmetic of the conversion (bisect_left vs bisect_right, the +1 offsets, the index nl_idx-1, the column after a newline in infer_next_position)."
     )
@@ -163,7 +166,8 @@ def _r31a(chk, repo, sk: SpaceKinds) -> None:
                     detail=f"{t} built from {text}",
                 )
             elif undecided and len(undecided) == len(group):
-                raise AnalysisError(f"R31a: cannot determine which text TemplatedFile.{t} is built from ({short(node, 80)}); the newline finder is no longer recognised")
+                # the finder's shape is judged by R31c (2); only if that has nothing to say is this an analysis error
+                chk.extra.setdefault("_r31a_deferred", []).append(f"R31a: cannot determine which text TemplatedFile.{t} is built from ({short(node, 80)}); the newline finder is no longer recognised")
             else:
                 chk.ok("R31a", f"{TBASE}::TemplatedFile.__init__", f"{t} built from {text}")
     # both tables through the same finder function
@@ -614,6 +618,12 @@ from ..selftest import Variant  # noqa: E402
 LINTER = "src/sqlfluff/core/linter/linter.py"
 
 VARIANTS = [
+    Variant(
+        "newline-finder-rewritten-with-splitlines", TBASE,
+        '    init_idx = -1\n    while True:\n        nl_pos = raw_str.find("\\n", init_idx + 1)\n        if nl_pos >= 0:\n            yield nl_pos\n            init_idx = nl_pos\n        else:\n            break  # pragma: no cover TODO?\n',
+        '    pos = 0\n    for line in raw_str.splitlines(keepends=True):\n        pos += len(line)\n        if line.endswith("\\n"):\n            yield pos - 1\n',
+        "R31c", "iter_indices_of_newlines", "seeded C31-3 (same shape): a form feed in the text shifts every later line number",
+    ),
     Variant(
         "infer-next-position-measures-from-first-newline", MARKERS,
         "        split = raw.split(\"\\n\")\n        return (\n            line_no + len(split) - 1,\n            line_pos + len(raw) if len(split) == 1 else len(split[-1]) + 1,\n        )\n",
